@@ -105,6 +105,7 @@ structure HEntry where
   target : Option String
   nx : Bool
   claimed : Bool := false      -- CacheEntry.prefetch: a refresh has been claimed for this entry
+  ansItems : List Item := []   -- the stored answer records (own records only: filterCacheableAnswer)
 deriving Repr
 
 structure Spec where
@@ -146,6 +147,7 @@ structure Reply where
   lastCname : Option String := none       -- target of the last CNAME of the answer section
   hasType : Bool := false                 -- the answer section holds a record of the question type
   synth : Option (String × Nat) := none   -- carries a validated RFC 8198 synthesis (owner index, TTL shown)
+  ansRRs : List (Nat × NKind) := []       -- the answer section as CalculateCacheTTL reads it (TTL, kind)
   aliases : List String := []             -- answer pieces that are CNAMEs
   freshTTLs : List (String × List Nat) := []   -- TTLs of the answer records of pieces relayed from the upstream
 deriving Repr
@@ -196,6 +198,18 @@ def itemsToNs (id : Nat) (owner : String) (items : List Item) : List NsRec :=
         | 'g' => .sig it.a
         | _ => .plain }
 
+def itemKind (it : Item) : NKind := if it.kind == 'g' then .sig it.a else .plain
+
+def rrOf (now : Int) (x : Nat × NKind) : RR :=
+  match x.2 with
+  | .plain => { ttl := x.1 }
+  | .soa mn => { ttl := x.1, kind := .soa mn }
+  | .sig d => { ttl := x.1, kind := .rrsig (now + d * S) }
+
+/-- the sub-query's answer as `additionalAnswer` hands it to `CalculateCacheTTL`. -/
+def replyMsg (now : Int) (r : Reply) : Msg :=
+  { answer := r.ansRRs.map (rrOf now), ns := r.ns.map (NsRec.toRR now) }
+
 /-- `searchAdditionalAnswer`. -/
 def mergeReply (r s : Reply) : Reply :=
   { ans := r.ans ++ s.ans, ansTTL := r.ansTTL ++ s.ansTTL,
@@ -203,6 +217,7 @@ def mergeReply (r s : Reply) : Reply :=
     nx := r.nx || s.nx, fresh := r.fresh ++ s.fresh, expired := r.expired || s.expired,
     lastCname := if s.lastCname.isSome then s.lastCname else r.lastCname, hasType := r.hasType || s.hasType,
     synth := if s.synth.isSome then s.synth else r.synth,
+    ansRRs := r.ansRRs ++ s.ansRRs,
     aliases := r.aliases ++ s.aliases, freshTTLs := r.freshTTLs ++ s.freshTTLs }
 
 def sigPRR (now : Int) (ttl : Nat) (g : Item) : ProofRR :=
@@ -266,13 +281,16 @@ def serve (cfg : Cfg) (script : List (String × Spec)) (now : Int) :
       match serve cfg script now fuel st t false true bypass none with
       | (st, none, _) => (st, r, mcut, none)
       | (st, some s, child) =>
+        -- terminal NXDOMAIN: after the inherit the outer request tree is also bound to the lifetime the
+        -- denial itself gets (94ad58d): boundRequestTo(ctx, now + CalculateCacheTTL(respCname, NXDOMAIN))
+        let denial := some (adoptedDenialBound cfg (replyMsg now s) now)
         if s.ans.isEmpty && s.ns.isEmpty then
-          if s.nx then (st, { r with nx := true }, boundCut mcut child, none) else (st, r, mcut, none)
+          if s.nx then (st, { r with nx := true }, boundCut (boundCut mcut child) denial, none) else (st, r, mcut, none)
         else
           -- lineage.inherit(): the sub-query's records reach the outer answer
           let r' := mergeReply r s
           let mcut' := (forkInherit mcut [child] true).1
-          if s.nx then (st, r', mcut', none)
+          if s.nx then (st, r', boundCut mcut' denial, none)
           -- a validated NODATA proof on the target ends the chase (its provenance is propagated)
           else if s.synth.isSome then (st, r', mcut', none)
           else match s.lastCname with
@@ -318,6 +336,7 @@ def serve (cfg : Cfg) (script : List (String × Spec)) (now : Int) :
                             ns := he.ns.map (fun n => { n with ttl := shown, fresh := false }), nx := he.nx,
                             expired := he.ns.any nsExpired, lastCname := he.target,
                             hasType := he.hasAns && he.target.isNone,
+                            ansRRs := he.ansItems.map (fun it => (shown, itemKind it)),
                             aliases := if he.hasAns && he.target.isSome then [name] else [] }
         if he.nx then (st, some r0, mcut) else
         let (st, r, mcut) := chase st r0 he.target mcut
@@ -335,6 +354,7 @@ def serve (cfg : Cfg) (script : List (String × Spec)) (now : Int) :
                             expired := sp.ans.any itemExpired || sp.ns.any itemExpired,
                             lastCname := if sp.kind == 'c' then some sp.tgt else none,
                             hasType := sp.kind == 'p' && !sp.ans.isEmpty,
+                            ansRRs := sp.ans.map (fun it => (it.ttl, itemKind it)),
                             aliases := if sp.kind == 'c' && !sp.ans.isEmpty then [name] else [],
                             freshTTLs := [(name, (sp.ans.filter (·.kind == 'p')).map (·.ttl))] }
         -- ResponseWriter.WriteMsg: chase first, then read the mcut and store
@@ -353,7 +373,7 @@ def serve (cfg : Cfg) (script : List (String × Spec)) (now : Int) :
         let ttl := admitTTL cfg msg rt now isSc
         let he : HEntry := { id := id, e := { stored := now, ttl := ttl, cut := mcut }, hasAns := hasAns,
                              ns := r.ns.map (fun n => { n with fresh := false }),
-                             target := if sp.kind == 'c' then some sp.tgt else none, nx := r.nx }
+                             target := if sp.kind == 'c' then some sp.tgt else none, nx := r.nx, ansItems := sp.ans }
         (setSlot st (name, isSc) he, some r, mcut)
 
 /-! ### printing -/
@@ -459,7 +479,7 @@ def completeRefresh (h : HState) (script : List (String × Spec)) (now : Int) (n
         let ttl := replaceTTL (genCfg h.ecsCap) msg rt now
         let he : HEntry := { id := id, e := { stored := now, ttl := ttl, cut := sp.lease.map fun l => now + l * S },
                              hasAns := hasAns, ns := nsRecs.map (fun n => { n with fresh := false }),
-                             target := if sp.kind == 'c' then some sp.tgt else none, nx := nx }
+                             target := if sp.kind == 'c' then some sp.tgt else none, nx := nx, ansItems := sp.ans }
         setSlot h (name, false) he
       else h
     | none => h
@@ -581,7 +601,7 @@ def stepHist (st : State) (w : List String) : State × String :=
             let msg : Msg := { answer := sp.ans.map (Item.toRR now), ns := nsRecs.map (NsRec.toRR now) }
             let ttl := replaceTTL (genCfg h.ecsCap) msg rt now
             let he : HEntry := { id := id, e := { stored := now, ttl := ttl, cut := sp.lease.map fun l => now + l * S },
-                                 hasAns := hasAns, ns := nsRecs.map (fun n => { n with fresh := false }), target := if sp.kind == 'c' then some sp.tgt else none, nx := nx }
+                                 hasAns := hasAns, ns := nsRecs.map (fun n => { n with fresh := false }), target := if sp.kind == 'c' then some sp.tgt else none, nx := nx, ansItems := sp.ans }
             let h := setSlot h (name, false) he
             ({ st with h := h }, "pf" ++ listing h id0 now)
           else ({ st with h := h }, "pf")
